@@ -32,7 +32,8 @@ MODULES = common.RR_MODULES + common.UR_MODULES + ['dassh.core', 'dassh.reactor'
 PROPERTY = 'C02'
 FUNCTIONS = ['dassh.region_rodded:RoddedRegion.calculate', 'dassh.region_unrodded:SingleNodeHomogeneous.calculate',
              'dassh.region_unrodded:MultiNodeHomogeneous.calculate', 'dassh.reactor:Reactor._calculate_asm_temperatures',
-             'dassh.reactor:Reactor.axial_step', 'dassh.core:Core.calculate_gap_temperatures',
+             'dassh.reactor:Reactor.axial_step', 'dassh.assembly:Assembly.update_region / check_region_update',
+             'dassh.core:Core.calculate_gap_temperatures',
              'dassh.core:Core._update_energy_balance', 'dassh.core:Core._flow_model',
              'dassh.mesh_functions:_map_asm2gap + map_across_gap (exchange lemma on the real maps)']
 ASSUMPTIONS = ['constant coolant / duct properties within a step (properties are atoms): with temperature-dependent gap '
@@ -260,6 +261,60 @@ def glue(S, cfg):
 glue.cname = 'Reactor.axial_step/_calculate_asm_temperatures'
 
 
+class _RegU:
+    def __init__(self, S, tag, n_d, n_g, dp):
+        self._map = {'gap2duct': S.vec(f'F_{tag}', (n_d, n_g), 'nonneg', 0.0, 1.0), 'duct2gap': None}
+        for i in range(n_d):
+            self._map['gap2duct'][i, i % n_g] = S.pos(f'F_{tag}_overlap[{i}]', 0.1, 1.0)
+        self.pressure_drop = dp
+        self.temp = {'duct_surf': np.zeros((1, 2, n_d))}
+        self.activated = []
+
+    def activate(self, previous, t_gap, h_gap, adiabatic):
+        self.activated.append(dict(previous=previous, t_gap=t_gap, h_gap=h_gap, adiabatic=adiabatic))
+
+
+def region_change(S, cfg):
+    """Assembly.update_region at a region boundary: the new region is activated from the old one with the gap boundary
+    values mapped onto ITS OWN duct mesh (h-weighted temperature), nothing with the adiabatic option; the finished
+    region's pressure drop is added once"""
+    from dassh import assembly as A
+    adiabatic = cfg.get('adiabatic', False)
+    n_g = 3
+    asm = A.Assembly.__new__(A.Assembly)
+    old = _RegU(S, 'old', 2, n_g, S.nonneg('dp_old', 0.0, 1e4))
+    new = _RegU(S, 'new', 3, n_g, S.nonneg('dp_new', 0.0, 1e4))
+    asm.region = [old, new]
+    asm._active_region_idx = 0
+    b = S.pos('z_boundary', 0.2, 0.8)
+    asm.region_bnd = [0, b]
+    asm._pressure_drop = S.nonneg('dp_acc', 0.0, 1e4)
+    dp0 = asm._pressure_drop
+    z_next = b + S.pos('dz', 0.001, 0.02)
+    t_gap = S.vec('Tg', n_g, 'pos', 600.0, 900.0)
+    h_gap = S.vec('hg', n_g, 'pos', 1e4, 1e5)
+    S.holds('change.detected', bool(asm.check_region_update(z_next)))
+    S.holds('change.not_detected_inside_region', not asm.check_region_update(b))
+    asm.update_region(z_next, t_gap, h_gap, adiabatic)
+    S.holds('change.new_region_active', asm._active_region_idx == 1)
+    S.holds('change.activated_once_from_old', len(new.activated) == 1 and new.activated[0]['previous'] is old
+            and not old.activated)
+    S.eq('change.pressure_drop_of_finished_region_added', asm._pressure_drop, dp0 + old.pressure_drop)
+    call = new.activated[0]
+    S.holds('change.adiabatic_flag', call['adiabatic'] == adiabatic)
+    if not adiabatic:
+        F = new._map['gap2duct']
+        for i in range(3):
+            hd = _sum(F[i, j] * h_gap[j] for j in range(n_g))
+            S.eq(f'change.h_on_new_duct_mesh[{i}]', call['h_gap'][i], hd)
+            S.eq(f'change.T_on_new_duct_mesh_is_h_weighted[{i}]', call['t_gap'][i] * hd,
+                 _sum(F[i, j] * h_gap[j] * t_gap[j] for j in range(n_g)))
+    S.eq('canary.change_keeps_pressure_drop', asm._pressure_drop, dp0, canary=True)
+
+
+region_change.cname = 'Assembly.update_region'
+
+
 def exchange(S, cfg):
     """Q_out on the duct mesh (with gap values mapped by the real gap->duct map, h-weighted) equals the heat credited
     on the gap mesh (with the duct surface mapped by the real duct->gap map)"""
@@ -389,7 +444,7 @@ def configs(tier):
            (region_step, dict(n_ring=2, n_duct=2)), (region_step, dict(n_ring=2, n_duct=3)),
            (unrodded_step, dict(model='simple')), (unrodded_step, dict(model='simple', adiabatic=True)),
            (unrodded_step, dict(model='6node')), (unrodded_step, dict(model='6node', adiabatic=True)),
-           (glue, dict()), (glue, dict(model=None)),
+           (glue, dict()), (glue, dict(model=None)), (region_change, dict()), (region_change, dict(adiabatic=True)),
            (exchange, dict(n=2, same=True)), (exchange, dict(n=2, m=3)), (exchange, dict(n=3, m=2)),
            (exchange, dict(n=3, m=4, pad=2)),
            (gap_step, dict(present=(1,), types='c')), (gap_step, dict(present=(1, 1, 1), types='acU')),
